@@ -1,6 +1,6 @@
 (* Properties/C05.v — pinned statements only. *)
 From Boreal Require Import Base.Prelude Base.Res Model.Eval Spec.CondSem Model.EvalCost Model.Scanner
-     Spec.RuleSetSpec Proofs.ScannerProofs Proofs.NoScanScannerProofs Proofs.CallbackProofs Proofs.IndepProofs.
+     Spec.RuleSetSpec Proofs.ScannerProofs Proofs.NoScanScannerProofs Proofs.CallbackProofs Proofs.IndepProofs Proofs.ReportedFacts.
 
 (* The scan procedure (global rules first with delayed reporting, namespace disabling, fix-up of
    invalidated global rules, then ordinary rules with positional references to earlier results)
@@ -52,6 +52,19 @@ Theorem C05_callback_same_any_config :
     /\ exists pre, o_events (run_scan c Never inp sc) = pre ++ spec_events c sc inp
                    /\ (pre = (if c_direct c then import_events c inp else []) \/ pre = pre_events c inp).
 Proof. exact run_scan_callback_spec_any. Qed.
+
+(* read from the result list, whatever the configuration: a reported rule is a NON-PRIVATE rule of the
+   set, carrying its own identifier and namespace; and a rule flagged "not matched" is reported only
+   when not-matched rules were asked for *)
+Theorem C05_reported_rules_facts :
+  forall c inp sc e,
+    c_cb c = false ->
+    wf_scanner inp sc = true -> ns_bound (s_nns sc) (s_globals sc) -> ns_bound (s_nns sc) (s_rules sc) ->
+    In e (o_rules (run_scan c Never inp sc)) ->
+    (exists r, In r (s_globals sc ++ s_rules sc) /\ r_private r = false
+               /\ er_id e = r_id r /\ er_ns e = r_ns r)
+    /\ (c_nm c = false -> er_matched e = true).
+Proof. exact reported_rules_facts. Qed.
 
 (* a namespace is disabled after the global phase iff one of its global rules does not hold *)
 Theorem C05_namespace_disabled_iff :
@@ -173,3 +186,4 @@ Print Assumptions C05_namespace_disabled_iff.
 Print Assumptions C05_var_alignment.
 Print Assumptions C05_result_is_spec.
 Print Assumptions C05_global_refs_ordinary_refuted.
+Print Assumptions C05_reported_rules_facts.
